@@ -13,7 +13,19 @@ pub struct FileCase {
     pub rel_abs: bool,
     /// the source file exists under the source root (the HTML writer opens it)
     pub exists: bool,
+    /// number of lines of the source file (`None`: the two-line source of the first sessions'
+    /// corpus). The HTML file page lists one row per SOURCE line; its header counts the RECORD's
+    /// lines (second review, item 22): generated as `highest line of the record + k`, k ∈ -3..=3
+    pub src_lines: Option<u32>,
     pub cov: CovResult,
+}
+
+/// the text of a source with `n` lines
+pub fn source_text(n: Option<u32>) -> String {
+    match n {
+        None => "int x;\nint y;\n".to_string(),
+        Some(n) => (1..=n).map(|i| format!("int l{};\n", i)).collect(),
+    }
 }
 
 #[derive(Clone, Debug)]
@@ -49,9 +61,10 @@ impl Env {
     pub fn materialise(&self, f: &FileCase) {
         let p = self.abs(f);
         if f.exists {
-            if !p.exists() {
+            let want = source_text(f.src_lines);
+            if std::fs::metadata(&p).map(|m| m.len() != want.len() as u64).unwrap_or(true) {
                 std::fs::create_dir_all(p.parent().unwrap()).unwrap();
-                std::fs::write(&p, "int x;\nint y;\n").unwrap();
+                std::fs::write(&p, want).unwrap();
             }
         } else if p.exists() {
             let _ = std::fs::remove_file(&p);
@@ -121,7 +134,7 @@ pub fn case_json(case: &Case, writer: &str) -> Value {
         "branch": case.branch,
         "threads": case.threads,
         "files": case.files.iter().map(|f| json!({
-            "rel": f.rel, "rel_abs": f.rel_abs, "exists": f.exists, "cov": show_cov(&f.cov)
+            "rel": f.rel, "rel_abs": f.rel_abs, "exists": f.exists, "src_lines": f.src_lines, "cov": show_cov(&f.cov)
         })).collect::<Vec<_>>(),
     })
 }
@@ -135,6 +148,7 @@ pub fn case_from_json(v: &Value) -> Option<(Case, String)> {
                 rel: f["rel"].as_str()?.to_string(),
                 rel_abs: f["rel_abs"].as_bool()?,
                 exists: f["exists"].as_bool()?,
+                src_lines: f["src_lines"].as_u64().map(|n| n as u32),
                 cov: parse_cov(f["cov"].as_str()?),
             })
         })
@@ -267,11 +281,17 @@ pub fn gen_case(rng: &mut Rng) -> Case {
         if files.iter().any(|f| f.rel == rel) {
             continue;
         }
+        let cov = gen_cov(rng);
+        // the source has `highest line + k` lines, k ∈ -3..=3 (0 in half of the cases): the page lists
+        // the source's lines, the header counts the record's
+        let last = cov.lines.keys().last().copied().unwrap_or(0) as i64;
+        let k = if rng.chance(1, 2) { 0 } else { rng.range(0, 6) as i64 - 3 };
         files.push(FileCase {
             rel,
             rel_abs: rng.chance(p_abs, 10),
             exists,
-            cov: gen_cov(rng),
+            src_lines: Some((last + k).max(0) as u32),
+            cov,
         });
     }
     // name collisions in the covdir `children` object (about one case in 14): a file without
@@ -285,11 +305,15 @@ pub fn gen_case(rng: &mut Rng) -> Case {
             let depth = rng.range(1, parts.len() as u64 - 1) as usize;
             let rel = parts[..depth].join("/");
             if !files.iter().any(|f| f.rel == rel) {
-                files.push(FileCase { rel, rel_abs: false, exists: false, cov: gen_cov(rng) });
+                files.push(FileCase { rel, rel_abs: false, exists: false, src_lines: None, cov: gen_cov(rng) });
             }
         } else {
+            // the same path twice: ONE source file on disk, long enough for both records
             let mut dup = files[k].clone();
             dup.cov = gen_cov(rng);
+            let last = dup.cov.lines.keys().last().copied().unwrap_or(0).max(files[k].cov.lines.keys().last().copied().unwrap_or(0));
+            dup.src_lines = Some(last.max(files[k].src_lines.unwrap_or(0)));
+            files[k].src_lines = dup.src_lines;
             files.push(dup);
         }
     }
@@ -299,6 +323,21 @@ pub fn gen_case(rng: &mut Rng) -> Case {
         branch: rng.chance(1, 2),
         threads: rng.range(1, 3) as usize,
     }
+}
+
+/// two results with the same path (the "duplicate half" of the collisions): rel path → how often
+pub fn dup_paths(case: &Case) -> std::collections::BTreeMap<String, usize> {
+    let mut n = std::collections::BTreeMap::new();
+    for f in &case.files {
+        *n.entry(f.rel.clone()).or_insert(0usize) += 1;
+    }
+    n.retain(|_, c| *c > 1);
+    n
+}
+
+/// a file whose path is a directory of another result: cannot be laid out as source files
+pub fn has_file_dir_collision(case: &Case) -> bool {
+    case.files.iter().any(|f| case.files.iter().any(|g| g.rel.starts_with(&format!("{}/", f.rel))))
 }
 
 /// the paths the covdir writer files the results under collide: two results at the same path, or a
